@@ -99,7 +99,7 @@ def tie_T2():
     sha = C.sha_files(deps)
     d = os.path.join(C.GEN, "tok2_" + sha)
     res = {"sha": sha, "obligations": ["TokTie2:tie2_reinit", "TokTie2:tie2_eod", "TokTie2:tie2_process", "TokTie2:tie2_post_process",
-                                       "TokTie2:tie2_iter_step", "TokTie2:tie2_run", "TokTie2:tie2_tokenize", "TokTie2:tie2_validate"]}
+                                       "TokTie2:tie2_iter_step", "TokTie2:tie2_run", "TokTie2:tie2_tokenize", "TokTie2:tie2_validate", "TokTie2:tie2_delivery"]}
     with C.BuildLock():
         marker = os.path.join(d, "RESULT")
         if os.path.exists(marker):
